@@ -374,7 +374,7 @@ harness! {
 }
 
 harness! {
-    /// kind=bounded tier=quick bound="i32: sign in {none,'-','+'} followed by exactly 10 symbolic digits (i32::MAX has 10 digits)"
+    /// kind=bounded tier=thorough bound="i32: sign in {none,'-','+'} followed by exactly 10 symbolic digits (i32::MAX has 10 digits)"
     #[kani::unwind(14)]
     #[kani::stub(konst_kernel::string::non_char_boundary_panic, crate::hlib::stub_non_char_boundary_panic)]
     fn c12_wide_i32(s) {
@@ -388,7 +388,7 @@ harness! {
 }
 
 harness! {
-    /// kind=bounded tier=quick bound="i32: sign in {none,'-','+'} followed by exactly 11 symbolic digits (one more than i32::MAX has)"
+    /// kind=bounded tier=thorough bound="i32: sign in {none,'-','+'} followed by exactly 11 symbolic digits (one more than i32::MAX has)"
     #[kani::unwind(15)]
     #[kani::stub(konst_kernel::string::non_char_boundary_panic, crate::hlib::stub_non_char_boundary_panic)]
     fn c12_wide_i32_extra(s) {
@@ -458,32 +458,6 @@ harness! {
 }
 
 harness! {
-    /// kind=bounded tier=quick bound="i64: sign in {none,'-','+'} followed by exactly 19 symbolic digits (i64::MAX has 19 digits)"
-    #[kani::unwind(23)]
-    #[kani::stub(konst_kernel::string::non_char_boundary_panic, crate::hlib::stub_non_char_boundary_panic)]
-    fn c12_wide_i64(s) {
-        let (len, r, buf) = wide::<i64, 22, _>(s, 19);
-        cov!(s, r == Some(i64::MAX), "C12.cover.i64_max");
-        cov!(s, r == Some(7), "C12.cover.i64_leading_zeros");
-        cov!(s, r.is_none() && len == 19 && buf[0] == b'9' && buf[1] == b'2', "C12.cover.i64_overflow_near_max");
-        cov!(s, r == Some(i64::MIN), "C12.cover.i64_min");
-        cov!(s, r == Some(0) && buf[0] == b'-', "C12.cover.i64_minus_zero");
-    }
-}
-
-harness! {
-    /// kind=bounded tier=thorough bound="i64: sign in {none,'-','+'} followed by exactly 20 symbolic digits (one more than i64::MAX has)"
-    #[kani::unwind(24)]
-    #[kani::stub(konst_kernel::string::non_char_boundary_panic, crate::hlib::stub_non_char_boundary_panic)]
-    fn c12_wide_i64_extra(s) {
-        let (len, r, buf) = wide::<i64, 22, _>(s, 20);
-        cov!(s, r == Some(i64::MAX), "C12.cover.i64_max_leading_zero");
-        cov!(s, r.is_none() && len == 20 && buf[0] == b'1', "C12.cover.i64_extra_digit_overflow");
-        cov!(s, r == Some(i64::MIN), "C12.cover.i64_min_leading_zero");
-    }
-}
-
-harness! {
     /// kind=bounded tier=quick bound="u128: sign in {none,'-','+'}, optional extra leading '0' or '1', the first 36 digits of u128::MAX, 3 symbolic digits"
     #[kani::unwind(45)]
     #[kani::stub(konst_kernel::string::non_char_boundary_panic, crate::hlib::stub_non_char_boundary_panic)]
@@ -542,32 +516,6 @@ harness! {
 }
 
 harness! {
-    /// kind=bounded tier=thorough bound="i128: sign in {none,'-','+'} followed by exactly 39 symbolic digits (i128::MAX has 39 digits)"
-    #[kani::unwind(43)]
-    #[kani::stub(konst_kernel::string::non_char_boundary_panic, crate::hlib::stub_non_char_boundary_panic)]
-    fn c12_wide_i128(s) {
-        let (len, r, buf) = wide::<i128, 42, _>(s, 39);
-        cov!(s, r == Some(i128::MAX), "C12.cover.i128_max");
-        cov!(s, r == Some(7), "C12.cover.i128_leading_zeros");
-        cov!(s, r.is_none() && len == 39 && buf[0] == b'1' && buf[1] == b'7', "C12.cover.i128_overflow_near_max");
-        cov!(s, r == Some(i128::MIN), "C12.cover.i128_min");
-        cov!(s, r == Some(0) && buf[0] == b'-', "C12.cover.i128_minus_zero");
-    }
-}
-
-harness! {
-    /// kind=bounded tier=thorough bound="i128: sign in {none,'-','+'} followed by exactly 40 symbolic digits (one more than i128::MAX has)"
-    #[kani::unwind(44)]
-    #[kani::stub(konst_kernel::string::non_char_boundary_panic, crate::hlib::stub_non_char_boundary_panic)]
-    fn c12_wide_i128_extra(s) {
-        let (len, r, buf) = wide::<i128, 42, _>(s, 40);
-        cov!(s, r == Some(i128::MAX), "C12.cover.i128_max_leading_zero");
-        cov!(s, r.is_none() && len == 40 && buf[0] == b'1', "C12.cover.i128_extra_digit_overflow");
-        cov!(s, r == Some(i128::MIN), "C12.cover.i128_min_leading_zero");
-    }
-}
-
-harness! {
     /// kind=bounded tier=quick bound="usize: sign in {none,'-','+'}, optional extra leading '0' or '1', the first 17 digits of usize::MAX, 3 symbolic digits"
     #[kani::unwind(26)]
     #[kani::stub(konst_kernel::string::non_char_boundary_panic, crate::hlib::stub_non_char_boundary_panic)]
@@ -622,32 +570,6 @@ harness! {
         cov!(s, r == Some(isize::MIN) && len == 21, "C12.cover.isize_near_min_leading_zero");
         cov!(s, r == Some(isize::MIN + 2), "C12.cover.isize_near_min_plus_2");
         cov!(s, r.is_none() && len == 20 && buf[0] == b'-' && buf[19] == b'9' && buf[18] == b'0' && buf[17] == b'8' && buf[16] == b'5', "C12.cover.isize_near_min_minus_1");
-    }
-}
-
-harness! {
-    /// kind=bounded tier=thorough bound="isize: sign in {none,'-','+'} followed by exactly 19 symbolic digits (isize::MAX has 19 digits)"
-    #[kani::unwind(23)]
-    #[kani::stub(konst_kernel::string::non_char_boundary_panic, crate::hlib::stub_non_char_boundary_panic)]
-    fn c12_wide_isize(s) {
-        let (len, r, buf) = wide::<isize, 22, _>(s, 19);
-        cov!(s, r == Some(isize::MAX), "C12.cover.isize_max");
-        cov!(s, r == Some(7), "C12.cover.isize_leading_zeros");
-        cov!(s, r.is_none() && len == 19 && buf[0] == b'9' && buf[1] == b'2', "C12.cover.isize_overflow_near_max");
-        cov!(s, r == Some(isize::MIN), "C12.cover.isize_min");
-        cov!(s, r == Some(0) && buf[0] == b'-', "C12.cover.isize_minus_zero");
-    }
-}
-
-harness! {
-    /// kind=bounded tier=thorough bound="isize: sign in {none,'-','+'} followed by exactly 20 symbolic digits (one more than isize::MAX has)"
-    #[kani::unwind(24)]
-    #[kani::stub(konst_kernel::string::non_char_boundary_panic, crate::hlib::stub_non_char_boundary_panic)]
-    fn c12_wide_isize_extra(s) {
-        let (len, r, buf) = wide::<isize, 22, _>(s, 20);
-        cov!(s, r == Some(isize::MAX), "C12.cover.isize_max_leading_zero");
-        cov!(s, r.is_none() && len == 20 && buf[0] == b'1', "C12.cover.isize_extra_digit_overflow");
-        cov!(s, r == Some(isize::MIN), "C12.cover.isize_min_leading_zero");
     }
 }
 
@@ -748,6 +670,42 @@ harness! {
         cov!(s, n == 19 && e.is_none(), "C12.cover.prefix_isize_overflow");
         cov!(s, n == 20 && e == Some(isize::MIN), "C12.cover.prefix_isize_min_then_byte");
         cov!(s, n == 20 && e.is_none(), "C12.cover.prefix_isize_below_min");
+    }
+}
+
+harness! {
+    /// kind=bounded tier=thorough bound="i64: sign in {none,'-','+'}, optional extra leading '0' or '1', the first 13 digits of i64::MAX, 6 symbolic digits (all-symbolic 19-digit strings are out of reach for the signed 64/128-bit types: >40 min)"
+    #[kani::unwind(25)]
+    #[kani::stub(konst_kernel::string::non_char_boundary_panic, crate::hlib::stub_non_char_boundary_panic)]
+    fn c12_near_i64_deep(s) {
+        let (len, r, buf) = near::<i64, 23, _>(s, b"9223372036854775807", 6);
+        cov!(s, r == Some(i64::MAX), "C12.cover.i64_deep_max");
+        cov!(s, r == Some(i64::MIN), "C12.cover.i64_deep_min");
+        cov!(s, r.is_none() && len == 20 && buf[0] == b'-', "C12.cover.i64_deep_below_min");
+    }
+}
+
+harness! {
+    /// kind=bounded tier=thorough bound="i128: sign in {none,'-','+'}, optional extra leading '0' or '1', the first 33 digits of i128::MAX, 6 symbolic digits (all-symbolic 39-digit strings are out of reach for the signed 64/128-bit types: >40 min)"
+    #[kani::unwind(45)]
+    #[kani::stub(konst_kernel::string::non_char_boundary_panic, crate::hlib::stub_non_char_boundary_panic)]
+    fn c12_near_i128_deep(s) {
+        let (len, r, buf) = near::<i128, 43, _>(s, b"170141183460469231731687303715884105727", 6);
+        cov!(s, r == Some(i128::MAX), "C12.cover.i128_deep_max");
+        cov!(s, r == Some(i128::MIN), "C12.cover.i128_deep_min");
+        cov!(s, r.is_none() && len == 40 && buf[0] == b'-', "C12.cover.i128_deep_below_min");
+    }
+}
+
+harness! {
+    /// kind=bounded tier=thorough bound="isize: sign in {none,'-','+'}, optional extra leading '0' or '1', the first 13 digits of isize::MAX, 6 symbolic digits (all-symbolic 19-digit strings are out of reach for the signed 64/128-bit types: >40 min)"
+    #[kani::unwind(25)]
+    #[kani::stub(konst_kernel::string::non_char_boundary_panic, crate::hlib::stub_non_char_boundary_panic)]
+    fn c12_near_isize_deep(s) {
+        let (len, r, buf) = near::<isize, 23, _>(s, b"9223372036854775807", 6);
+        cov!(s, r == Some(isize::MAX), "C12.cover.isize_deep_max");
+        cov!(s, r == Some(isize::MIN), "C12.cover.isize_deep_min");
+        cov!(s, r.is_none() && len == 20 && buf[0] == b'-', "C12.cover.isize_deep_below_min");
     }
 }
 
